@@ -197,6 +197,21 @@ def check_models(ctx, case):
                          case, {"bloc": b, "type": bad[:1], "got": [tab[k] for k in bad[:1]], "exp": [float(rt[k]) for k in bad[:1]]})
                 return
             ctx.count("table_cells", len(rt))
+    if len(blocs) == 1 and n <= 7:
+        # one bloc: a single ballot type with one slot per supported candidate of the slate, probability 1
+        og = observe(bp.make, "slate_BradleyTerry", p)
+        if not og.ok:
+            ctx.fail(f"slate_BradleyTerry (one bloc) constructor raised {og.etype}", case, {"msg": str(og.exc)[:200]})
+            return
+        b = blocs[0]
+        n_own = sum(1 for v in p["pref_intervals_by_bloc"][b][b].values() if v > 0)
+        tab = og.value.ballot_type_pdf[b]
+        ctx.count("slate_bt_tables")
+        ctx.count("slate_bt_one_bloc_tables")
+        if set(tab) != {tuple([b] * n_own)} or not close(sum(tab.values()), 1):
+            ctx.fail("slate_BradleyTerry.ballot_type_pdf (one bloc): not the single type with one slot per supported candidate", case,
+                     {"keys": sorted(map(str, tab))[:4], "supported": n_own})
+            return
     # the tables are definitions, not working storage: re-read after the generators have produced profiles they are the same
     rnd = ctx.sub_rnd(canon.jhash(case))
     for model in ("name_BradleyTerry", "slate_BradleyTerry", "name_PlackettLuce"):
